@@ -535,9 +535,14 @@ fn mixed_calls_part(ctx: &mut Ctx, rng: &mut Rng) {
             }
         }
     }
+    // the call protocol over a lazy image-data source (Model/LazyReader.lean, Props/C04Lazy.lean)
+    crate::props::c04_lazy::run_part(ctx);
 }
 
 pub fn replay(ctx: &mut Ctx, case: &J) {
+    if case.get("what").and_then(|x| x.as_str()) == Some("lazy") {
+        return crate::props::c04_lazy::replay(ctx, case);
+    }
     let file = case.get("file").and_then(|f| f.as_str()).and_then(unhex).unwrap_or_default();
     let a = parse_cuts(case.get("cuts_a").and_then(|x| x.as_str()).unwrap_or("-"));
     let b = parse_cuts(case.get("cuts_b").and_then(|x| x.as_str()).unwrap_or("-"));
